@@ -1,8 +1,8 @@
 (* Props/C07.v — Per request: one handler call, one correct EndRequest, correct connection reuse.
-   Only statements.  Model: Async/Conn.v.  Proved so far: the epilogue clause.  The one-call and reuse
-   clauses are decided by the correspondence check + oracle (they are the clauses that exposed and now
-   guard against finding F3); their proofs are added as they complete. *)
-From FV Require Import Base.Bytes Gen.Generated Codec.Header Codec.Bodies Parser.ReqModel Parser.StreamModel Async.Conn Async.ConnWrites.
+   Only statements.  Model: Async/Conn.v.  Proved: the epilogue clause and the reuse clause (Request::close).  The one-call clause over the
+   whole loop is decided by the correspondence check + oracle (it is the clause that exposed and now guards
+   against finding F3) until its proof completes. *)
+From FV Require Import Base.Bytes Gen.Generated Codec.Header Codec.Bodies Parser.ReqModel Parser.StreamModel Async.Conn Async.ConnWrites Async.ConnLoop.
 
 (* Request::close, whenever it ends without an I/O error (reuse, or ConnectionReset because KeepConn was
    not set): after skipping to a record boundary WITHOUT writing anything, it writes exactly the pending
@@ -23,3 +23,30 @@ Theorem C07_epilogue : forall maxc r1 disc code w1 x w',
         then hdr_encode RT_Stdout id 0 0 ++ hdr_encode RT_Stderr id 0 0 ++ end_record ast ps id
         else end_record ast ps id)).
 Proof. exact close_tail_log_shape. Qed.
+
+(* the connection serves the next request IF AND ONLY IF the request carried KeepConn and no I/O error
+   occurred: once the record boundary is reached (reading, never writing), close returns a request parser
+   exactly when KeepConn is set and replies ++ epilogue were written completely; without KeepConn it ends
+   the connection (ConnectionReset) after the complete epilogue; a failed or zero-length write leaves a
+   proper prefix of replies ++ epilogue and ends the connection with that error; nothing else can happen *)
+Theorem C07_reuse : forall maxc r1 disc code w1 x w' p2 r3 w2 ep,
+  close_tail maxc r1 disc code w1 = Ok x w' ->
+  set_stream (rsp r1) None = SetOk p2 ->
+  record_boundary maxc (mkR p2 (rwriteable r1) (rlock r1)) w1 = Ok (None, r3) w2 ->
+  epilogue (r_id (sreq (rsp r3))) disc code (if rwriteable r1 then ROLE_OUTPUT_STREAMS else []) = Some ep ->
+  let total := output_buffer (rsp r3) ++ ep in
+  let keep := N.land (r_flags (sreq (rsp r3))) FLAG_KeepConn = FLAG_KeepConn in
+  match x with
+  | inl rp => wlog w' = wlog w1 ++ total /\ keep /\ into_request_parser (close_p4 r3) = ConvOk rp
+  | inr k =>
+      (wlog w' = wlog w1 ++ total /\ k = EK_Reset /\ ~ keep) \/
+      ((k = EK_WriteZero \/ k = EK_Transport) /\ ~ no_fault (wscript w2) /\
+       exists b1 b2, total = b1 ++ b2 /\ b2 <> [] /\ wlog w' = wlog w1 ++ b1)
+  end.
+Proof. exact close_reuse_iff. Qed.
+
+(* ... and every way close can end is one of: a read error while skipping to the boundary (nothing written),
+   the cases above, or (never, by C12 totality) a halt of the model *)
+Theorem C07_close_cases : forall maxc r1 disc code w1,
+  close_tail_post maxc r1 disc code w1 (close_tail maxc r1 disc code w1).
+Proof. exact close_tail_always. Qed.
